@@ -14,6 +14,7 @@ PROP = dict(
                        "Comdex.C15.units_of_work_wrapped", "Comdex.C15.wrapped_units_propagate_errors",
                        "Comdex.C15.wrapper_sites_and_their_loops", "Comdex.C15.per_item_loop_processes_ok_items",
                        "Comdex.C15.blocker_splits_per_item", "Comdex.C15.one_wrapper_all_or_nothing", "Comdex.C15.one_wrapper_for_all_counterexample",
+                       "Comdex.C15.kickoff_leaks_counterexample", "Comdex.C15.kickoff_repeats", "Comdex.C15.kickoff_wrapped_is_atomic",
                        "Comdex.C15.units_use_their_cache_context", "Comdex.C15.per_item_units_can_report_failure", "Comdex.C15.sweep_bounds_read_with_list", "Comdex.C15.table_pins"],
     harness_tests=["TestC15"],
     trusted_base=[KERNEL_TB, HARNESS_TB,
